@@ -116,9 +116,11 @@ class PathCtx:
         if check:
             if self.lia.check() == z3.unsat:
                 raise PathInfeasible()
-            self.solver.set("timeout", min(self.cfg.branch_timeout_ms, self.cfg.feas_timeout_ms))
+            self._cur_timeout = min(self.cfg.branch_timeout_ms, self.cfg.feas_timeout_ms)
+            self.solver.set("timeout", self._cur_timeout)
             r = self._check()
-            self.solver.set("timeout", self.cfg.branch_timeout_ms)
+            self._cur_timeout = self.cfg.branch_timeout_ms
+            self.solver.set("timeout", self._cur_timeout)
             if r == z3.unsat:
                 raise PathInfeasible()
 
@@ -164,6 +166,13 @@ class PathCtx:
         if dt > 0.5 and os.environ.get("PYVC_DEBUG"):
             import sys
             print(f"[slow {dt:.1f}s {r}] {[str(a)[:300] for a in assumptions]}", file=sys.stderr)
+        if r == z3.unknown:
+            # z3's sequence solver stays degraded after a timeout (later easy queries on the same solver object also
+            # come back unknown): continue with a fresh solver holding the same path condition
+            self.solver = z3.Solver()
+            self.solver.set("timeout", getattr(self, "_cur_timeout", self.cfg.branch_timeout_ms))
+            for a in self.pc:
+                self.solver.add(a)
         return r
 
     def feasible(self, term):
@@ -203,11 +212,19 @@ class PathCtx:
         can_t = not self._lia_unsat(term)
         can_f = can_t and not self._lia_unsat(nterm)
         if can_t and can_f:
-            self.solver.set("timeout", min(self.cfg.branch_timeout_ms, self.cfg.feas_timeout_ms))
-            can_f = self._check(nterm) != z3.unsat
+            self._cur_timeout = min(self.cfg.branch_timeout_ms, self.cfg.feas_timeout_ms)
+            self.solver.set("timeout", self._cur_timeout)
+            r_f = self._check(nterm)
+            can_f = r_f != z3.unsat
             if can_f:
+                if r_f == z3.unknown:
+                    # no model found in time (typically: the path needs long sequences); the other side is only
+                    # asked briefly for a refutation
+                    self._cur_timeout = 300
+                    self.solver.set("timeout", self._cur_timeout)
                 can_t = self._check(term) != z3.unsat
-            self.solver.set("timeout", self.cfg.branch_timeout_ms)
+            self._cur_timeout = self.cfg.branch_timeout_ms
+            self.solver.set("timeout", self._cur_timeout)
         if not can_t:
             self.decisions.append(False)
             self.forced.append(True)
